@@ -1116,6 +1116,13 @@ def judge_case(ctx, case, R, M):
         sp = view(lean_numbers(M["spec"]), ident0, kinds, ref=S0, fill_none=True)
         if json.dumps(sp, sort_keys=True) != json.dumps(S0, sort_keys=True):
             ctx.add_drift(small, S0, sp, "Lean spec of the original model (evalPy) differs from the real model")
+    # 0a. C08_fn_export_total: every function of the model lies in the exporter's language (Model/C08Language.lean,
+    #     declarative) -> the export must not raise (the options of write aside)
+    if M is not None and M.get("in_language") and r_exp == "error" and not case.get("refuse"):
+        ctx.violation(small, R["export"], "the export raised on a model whose functions all lie in the exporter's language")
+    if M is not None:
+        k = "in language" if M.get("in_language") else "outside language"
+        ctx.hist[k] = ctx.hist.get(k, 0) + 1
     # 1a. options of `write` that have no document: no compartment for the species, a compartment called like a component
     if case.get("refuse"):
         ctx.hist["option refused"] = ctx.hist.get("option refused", 0) + 1
